@@ -69,7 +69,12 @@ def rules_purity(run):
     names = sorted({f.short for f, _, _ in spec.values()})
     run.floor(len(names), 6, r, 'functions reachable from _compute_steps')
     w = prog.transitive_writes([ci])
+    from .c16 import derived_caches
+    memo = set(derived_caches(prog))      # memoised query results of Statechart: governed by C16.7 / C17.5 (invalidation), not state
     for (c, fld), sites in sorted(w.items()):
+        if c == 'Statechart' and fld in memo:
+            run.ok(r, sites[0][0].short, 'write to derived cache Statechart.%s (governed by C16.7)' % fld, sites[0][2])
+            continue
         for f, kind, node in sites:
             if f.name == '__init__' and f.cls is not None and c == f.cls.name or (f.name == '__init__' and prog.is_subclass(f.cls.name if f.cls else '', c)):
                 continue    # FRESH: a constructor initialising the object it is constructing
